@@ -6,7 +6,11 @@
 (b) project level: real histories on a temp project (save_history / save_objectdb on), close, reopen:
     lists compared entry by entry, dependency closures of every entry compared, then every undo and redo
     replayed against tree snapshots recorded before the close; object db compared value by value and
-    each ScopeInfo state pushed through the serializer correspondence.
+    each ScopeInfo state pushed through the serializer correspondence. Recorded change sets regularly
+    carry children on ignored resources (backups, .pyc, .venv); every History.do step is compared with
+    Persist.hist_do in Coq. The object db also receives direct operations (scopes created with nothing
+    recorded, facts, removals) and every reloaded scope is queried and extended.
+(c) twin projects: see twin_history.
 """
 import os
 import pickle
@@ -76,6 +80,8 @@ def g_data(d):
 
 # ----------------------------------------------------------------------------- generators
 NAMES = ["a.py", "b.py", "pkg", "pkg/m.py", "pkg/sub", "pkg/sub/n.py", "d", "d/x.txt", "é.py"]
+# resources matched by rope's default ignored_resources ('*~', '*.pyc', '.venv', 'venv', ...)
+IGNORED_NAMES = ["a.py~", "pkg/m.pyc", ".venv/lib.py", "d/x.txt~", "venv", "pkg/sub/n.py~"]
 TEXTS = ["", "x = 1\n", "x = 2\n", "def f():\n    return 'é'\n", "a\r\nb", "\ud800", "1"]
 
 
@@ -85,17 +91,22 @@ def gen_change(rng, project, depth=0):
     if depth < 3 and k < 0.25:
         cs = ch.ChangeSet(rng.choice(["", "Renaming <x> to <y>", "multi\nline", "ünï"]),
                           rng.choice([None, 0.0, 1727300000.123456, 1e-300, 2.5]))
+        if rng.random() < 0.3:
+            # "save with backup": the old text goes to the ignored twin of a file, the new text to the file
+            base = rng.choice([n for n in NAMES if "." in n])
+            cs.add_change(ch.ChangeContents(project.get_file(base + "~"), rng.choice(TEXTS), rng.choice([None] + TEXTS)))
+            cs.add_change(ch.ChangeContents(project.get_file(base), rng.choice(TEXTS), rng.choice([None] + TEXTS)))
         for _ in range(rng.randint(0, 3)):
             cs.add_change(gen_change(rng, project, depth + 1))
         return cs
-    path = rng.choice(NAMES)
+    path = rng.choice(NAMES + IGNORED_NAMES) if rng.random() < 0.5 else rng.choice(NAMES)
     as_folder = rng.random() < 0.4
     res = project.get_folder(path) if as_folder else project.get_file(path)
     if k < 0.50:
         f = project.get_file(path)
         return ch.ChangeContents(f, rng.choice(TEXTS), rng.choice([None] + TEXTS))
     if k < 0.70:
-        return ch.MoveResource(res, rng.choice(NAMES) + "2", exact=True)
+        return ch.MoveResource(res, rng.choice(NAMES) + rng.choice(["2", "2", "~", ".pyc"]), exact=True)
     if k < 0.80:
         return ch.CreateResource(res)
     if k < 0.85:
@@ -105,6 +116,31 @@ def gen_change(rng, project, depth=0):
         parent = project.get_folder(rng.choice(["", "pkg", "d"]))
         return ch.CreateFile(parent, rng.choice(["nf.py", "z.txt"]))
     return ch.RemoveResource(res)
+
+
+def abs_paths(a):
+    """get_changed_resources() of an abstracted change, as paths"""
+    if a[0] == "set":
+        return [p for x in a[2] for p in abs_paths(x)]
+    if a[0] == "move":
+        return [a[1], a[3]]
+    return [a[1]]
+
+
+def abs_leaves(a):
+    if a[0] == "set":
+        return [l for x in a[2] for l in abs_leaves(x)]
+    return [a]
+
+
+def ignored_paths(project, paths):
+    return sorted({p for p in paths if project.is_ignored(project.get_file(p))})
+
+
+def is_mixed(project, a):
+    ps = abs_paths(a)
+    ign = set(ignored_paths(project, ps))
+    return bool(ign) and any(p not in ign for p in ps)
 
 
 def has_folder_move(a):
@@ -129,20 +165,23 @@ def unit_cases(ctx, project, n):
             back = abstract(ch.DataToChange(project)(data2))
         except Exception as e:
             back, err = None, type(e).__name__
-        cases.append((a, data2, back, err))
+        cases.append((a, data2, back, err, ignored_paths(project, abs_paths(a)),
+                      bool(project.history._is_change_interesting(c))))
     return cases
 
 
 def run_unit(ctx, project):
     n = ctx.scale(300, 3000)
     cases = unit_cases(ctx, project, n)
-    terms = ["{| pc_change := %s; pc_data := %s; pc_back := %s |}" % (
-        g_change(a), g_data(d), g_opt(None if b is None else g_change(b))) for (a, d, b, _) in cases]
+    terms = ["{| pc_change := %s; pc_data := %s; pc_back := %s; pc_ignored := %s; pc_interesting := %s |}" % (
+        g_change(a), g_data(d), g_opt(None if b is None else g_change(b)), g_list([g_text(p) for p in ign]), g_bool(intr))
+        for (a, d, b, _, ign, intr) in cases]
     bodies = []
     shard = 300
     for s in range(0, len(terms), shard):
         bodies.append(PHEADER + "Definition cases : list pcase := %s.\n"
                       "Eval vm_compute in (pmismatches true cases).\nEval vm_compute in (pmismatches false cases).\n"
+                      "Eval vm_compute in (count_mixed cases).\n"
                       % g_list(terms[s:s + shard]).replace("; {|", ";\n {|"))
     outs = ctx.coq_files_parallel(bodies)
     mism_keep, mism_legacy = {}, {}
@@ -152,6 +191,9 @@ def run_unit(ctx, project):
             mism_keep[si * shard + i] = code
         for (i, code) in pairs[1]:
             mism_legacy[si * shard + i] = code
+        nums = ctx.parse_nums(out)
+        ctx.extra["mixed_sets_in_theorem_domain"] = ctx.extra.get("mixed_sets_in_theorem_domain", 0) + (
+            nums[-1][0] if nums and nums[-1] else 0)
     ctx.extra["persist_unit_cases"] = len(cases)
     legacy_code = bool(mism_keep) and not mism_legacy
     if legacy_code:
@@ -163,20 +205,34 @@ def run_unit(ctx, project):
                           "C12 history data: a folder move reloaded from saved history has become a file move "
                           "(selective undo after reopen loses its dependencies)")
             mism_keep = {}
-    for idx, (a, d, b, err) in enumerate(cases):
+    for idx, (a, d, b, err, ign, intr) in enumerate(cases):
+        mixed = bool(ign) and intr
         nontriv = a[0] == "set" and len(a[2]) > 0 or has_folder_move(a)
         ctx.case(("change", repr(a)), nontrivial=nontriv)
         ctx.traces += 1
         ctx.count("change:" + a[0])
         if has_folder_move(a):
             ctx.count("change:has_folder_move")
+        if ign:
+            ctx.count("change:touches_ignored_resource")
+        if mixed and a[0] == "set":
+            ctx.count("change:mixed_set(recorded, with a child on an ignored resource)")
+        if not intr:
+            ctx.count("change:not_interesting(ignored resources only, or empty)")
         rp = {"kind": "change-data", "change": a}
         if b != a:   # oracle: reloaded change differs from the original
-            ctx.violation(dict(rp, reloaded=b, error=err),
-                          "C12 history data: a change reloaded from its saved data differs from the original: %r -> %r" % (a, b))
+            lost = [l for l in abs_leaves(a) if b is None or l not in abs_leaves(b)]
+            ctx.violation(dict(rp, reloaded=b, error=err, ignored=ign),
+                          "C12 history data: a change reloaded from its saved data differs from the original: %r -> %r%s"
+                          % (a, b, (" (lost: %r; ignored resources: %r)" % (lost, ign)) if lost else ""))
+        elif idx in mism_keep and mism_keep[idx] == 4:
+            ctx.violation(dict(rp, mismatch_code=4, ignored=ign, interesting=intr,
+                               broken="correspondence RopeVerif.C12.PersistRunner.run_pcase code 4 (Persist.interesting vs History._is_change_interesting); theorems C12_recorded_change_reloads_whole / C12_ignored_only_change_not_recorded no longer speak about the code"),
+                          "C12 history: model and History._is_change_interesting disagree on %r (ignored: %r, code says %r)" % (a, ign, intr),
+                          no_input=True)
         elif idx in mism_keep:
             ctx.violation(dict(rp, mismatch_code=mism_keep[idx], data=repr(d),
-                               broken="correspondence RopeVerif.C12.PersistRunner.run_pcase (Persist.to_data/of_data vs ChangeToData/DataToChange); theorem C12_change_data_roundtrip no longer speaks about the code"),
+                               broken="correspondence RopeVerif.C12.PersistRunner.run_pcase (Persist.to_data/of_data vs ChangeToData/DataToChange); theorems C12_change_data_roundtrip / C12_saved_data_keeps_every_leaf no longer speak about the code"),
                           "C12 history data: model and ChangeToData/DataToChange disagree on %r" % (a,), no_input=True)
         if ctx.too_many():
             break
@@ -199,13 +255,109 @@ def snapshot(root):
     return snap
 
 
-def gen_history_ops(rng, n):
-    """Abstract op list, interpreted against the live tree."""
-    return [rng.random() for _ in range(n)], rng
+def ignored_files_on_disk(project):
+    """Paths of the files below the project root that rope ignores ('*~', '*.pyc', below .venv ...);
+    Folder.get_children() hides them, so the disk is walked."""
+    root = project.address
+    res = []
+    for dp, dns, fns in os.walk(root):
+        dns[:] = sorted(d for d in dns if d != ".ropeproject")
+        rel = os.path.relpath(dp, root)
+        for fn in sorted(fns):
+            path = fn if rel == "." else rel.replace(os.sep, "/") + "/" + fn
+            if project.is_ignored(project.get_file(path)):
+                res.append(path)
+    return res
 
 
-def perform_history(rng, project, nops):
-    """Perform nops changes through project.do; returns snapshots [S0..Sn] and op descriptions."""
+def _join(folder_path, name):
+    return (folder_path + "/" if folder_path else "") + name
+
+
+def mixed_change(rng, project, files, folders, fresh):
+    """A change set History.do records although one of its children works on an ignored resource.
+    files / folders: sorted paths of the non-ignored files / folders ("" is the root). Returns
+    (description tuple, builder) where builder(project) makes the ChangeSet for that project."""
+    ign = ignored_files_on_disk(project)
+    k = rng.random()
+    add = rng.choice(["x = 1\n", "# é\n", "y = x\n"])
+    with_backup = [f for f in files if f + "~" in ign]
+    if k < 0.40 and files:
+        path = rng.choice(files)
+        name, nest = fresh("backup "), rng.random() < 0.3
+        extra = fresh("f", ".py")
+
+        def build(P, path=path, name=name, nest=nest, add=add, extra=extra):
+            f = P.get_file(path)
+            cs = ch_mod().ChangeSet(name)
+            if not os.path.exists(os.path.join(P.address, *(path + "~").split("/"))):
+                cs.add_change(ch_mod().CreateFile(f.parent, f.name + "~"))
+            cs.add_change(ch_mod().ChangeContents(P.get_file(path + "~"), f.read()))
+            cs.add_change(ch_mod().ChangeContents(f, f.read() + add))
+            if nest:
+                outer = ch_mod().ChangeSet(name + " (outer)")
+                outer.add_change(cs)
+                outer.add_change(ch_mod().CreateFile(P.root, extra))
+                return outer
+            return cs
+        return ("backup_set", path, add, nest), build
+    if k < 0.55 and with_backup:
+        path = rng.choice(with_backup)
+        newp = _join(rng.choice(folders), fresh("m", ".py"))
+        name = fresh("move with backup ")
+
+        def build(P, path=path, newp=newp, name=name):
+            cs = ch_mod().ChangeSet(name)
+            cs.add_change(ch_mod().MoveResource(P.get_file(path), newp, exact=True))
+            cs.add_change(ch_mod().MoveResource(P.get_file(path + "~"), newp + "~", exact=True))
+            return cs
+        return ("move_with_backup", path, newp), build
+    if k < 0.80:
+        parent, pyc, py = rng.choice(folders), fresh("c", ".pyc"), fresh("f", ".py")
+        name = fresh("compiled ")
+
+        def build(P, parent=parent, pyc=pyc, py=py, name=name):
+            cs = ch_mod().ChangeSet(name)
+            cs.add_change(ch_mod().CreateFile(P.get_folder(parent), py))
+            cs.add_change(ch_mod().ChangeContents(P.get_file(_join(parent, py)), "z = 0\n"))
+            cs.add_change(ch_mod().CreateFile(P.get_folder(parent), pyc))
+            cs.add_change(ch_mod().ChangeContents(P.get_file(_join(parent, pyc)), "pyc of " + py + "\n"))
+            return cs
+        return ("pyc_set", parent, py, pyc), build
+    lib, py = fresh("lib", ".py"), fresh("f", ".py")
+    name = fresh("venv ")
+
+    def build(P, lib=lib, py=py, name=name):
+        cs = ch_mod().ChangeSet(name)
+        if not os.path.isdir(os.path.join(P.address, ".venv")):
+            cs.add_change(ch_mod().CreateFolder(P.root, ".venv"))
+        cs.add_change(ch_mod().CreateFile(P.get_folder(".venv"), lib))
+        cs.add_change(ch_mod().ChangeContents(P.get_file(".venv/" + lib), "import os\n"))
+        cs.add_change(ch_mod().CreateFile(P.root, py))
+        return cs
+    return ("venv_set", lib, py), build
+
+
+def ch_mod():
+    from rope.base import change as ch
+    return ch
+
+
+def do_step_case(project, limit, before, c):
+    """The History.do step just performed, for PersistRunner.run_dcase (the change is abstracted after
+    do(): ChangeContents has recorded its old contents by then)."""
+    a = abstract(c)
+    after = _abs_lists(project)
+    paths = abs_paths(a)
+    for lst in before + after:
+        for x in lst:
+            paths.extend(abs_paths(x))
+    return (limit, ignored_paths(project, paths), before[0], before[1], a, after[0], after[1])
+
+
+def perform_history(rng, project, nops, limit=None, dcases=None):
+    """Perform nops changes through project.do; returns snapshots [S0..Sn] and op descriptions. Every
+    change is recorded by the history (those of mixed_change in spite of their ignored children)."""
     from rope.base import change as ch
     root = project.address
     snaps = [snapshot(root)]
@@ -217,11 +369,15 @@ def perform_history(rng, project, nops):
         return "%s%d%s" % (prefix, counter[0], suffix)
 
     for _ in range(nops):
-        files = [r for r in project.get_files() if not r.path.startswith(".ropeproject")]
-        folders = [project.root] + [r for r in _all_folders(project)]
+        files = sorted((r for r in project.get_files() if not r.path.startswith(".ropeproject")), key=lambda r: r.path)
+        folders = [project.root] + sorted(_all_folders(project), key=lambda r: r.path)
         k = rng.random()
         c = None
-        if (k < 0.35 and files) or (files and len(files) > 6):
+        if rng.random() < 0.3:
+            d, build = mixed_change(rng, project, [f.path for f in files], [f.path for f in folders], fresh)
+            c = build(project)
+            descr.append(d)
+        elif (k < 0.35 and files) or (files and len(files) > 6):
             f = rng.choice(files)
             c = ch.ChangeContents(f, f.read() + rng.choice(["x = 1\n", "# é\n", "y = x\n"]))
             descr.append(("edit", f.path))
@@ -256,7 +412,10 @@ def perform_history(rng, project, nops):
             cs.add_change(ch.ChangeContents(project.get_file(sub.path + "/__init__.py"), "z = 0\n"))
             c = cs
             descr.append(("set", parent.path))
+        before = _abs_lists(project) if dcases is not None else None
         project.do(c)
+        if dcases is not None:
+            dcases.append(do_step_case(project, limit, before, c))
         snaps.append(snapshot(root))
     return snaps, descr
 
@@ -289,12 +448,12 @@ def one_history(ctx, hseed):
     rng = random.Random("hist-%d-%d" % (ctx.seed, hseed))
     root = tempfile.mkdtemp(prefix="ropeverif-c12-")
     replay = {"kind": "history", "hseed": hseed, "base_seed": ctx.seed}
-    result = {"hcase": None, "objdb_values": [], "objdb_case": None}
+    result = {"hcase": None, "objdb_values": [], "objdb_case": None, "dcases": []}
     try:
         limit = rng.choice([2, 3, 100, 100])
         project = Project(root, save_history=True, save_objectdb=True, max_history_items=limit)
         nops = rng.randint(3, 9)
-        snaps, descr = perform_history(rng, project, nops)
+        snaps, descr = perform_history(rng, project, nops, limit, result["dcases"])
         replay["ops"] = descr
         replay["limit"] = limit
         # some undos to populate the redo list
@@ -319,7 +478,21 @@ def one_history(ctx, hseed):
             nops = cur + 1
             cur = nops
             project.pycore.analyze_module(target)
+        # object information recorded directly: scopes created with nothing in them, facts, removals
+        db_ops = []
+        for _ in range(rng.randint(0, 4)):
+            op = gen_db_op(rng, objdb_plain(project), [f.path for f in pyfiles])
+            if op[0] != "db_query":
+                db_ops.append(op)
+                apply_db_op(project, op)
+        replay["db_ops"] = db_ops
         objdb_before = objdb_plain(project)
+        observed_before = objdb_observe(project)
+        n_empty = sum(1 for sc in objdb_before.values() for v in sc.values() if v == ({}, {}))
+        if n_empty:
+            ctx.count("history:closed_with_empty_scope")
+        if any(d[0] in ("backup_set", "move_with_backup", "pyc_set", "venv_set") for d in descr):
+            ctx.count("history:has_recorded_set_with_ignored_child")
         to_data = ch.ChangeToData()
         undo_before = [abstract(c) for c in project.history.undo_list]
         redo_before = [abstract(c) for c in project.history.redo_list]
@@ -328,16 +501,24 @@ def one_history(ctx, hseed):
                        dep_indices(project.history, project.history.redo_list))
         reopen_times = rng.randint(1, 2)
         for ri in range(reopen_times):
-            project.close()
+            try:
+                project.close()
+            except Exception as e:  # noqa
+                ctx.violation(dict(replay, phase="close", round=ri, error=repr(e)),
+                              "C12: closing the project (close number %d) raises %r" % (ri + 1, e))
+                return result
             if ri == 0:
                 try:
-                    import json as _json
-                    with open(os.path.join(root, ".ropeproject", "objectdb.json")) as jf:
-                        result["objdb_case"] = (objdb_before, _json.load(jf))
+                    result["objdb_case"] = (objdb_before, read_saved_objectdb(root))
                 except Exception as e:  # the side file is part of what close() writes
                     ctx.violation(dict(replay, phase="objectdb-json", error=repr(e)),
                                   "C12 object db: the JSON side file written at close cannot be read back")
-            project = Project(root, save_history=True, save_objectdb=True, max_history_items=limit)
+            try:
+                project = Project(root, save_history=True, save_objectdb=True, max_history_items=limit)
+            except Exception as e:  # noqa
+                ctx.violation(dict(replay, phase="reopen", round=ri, error=repr(e)),
+                              "C12: opening the project again (reopen number %d) raises %r" % (ri + 1, e))
+                return result
         undo_after = [abstract(c) for c in project.history.undo_list]
         redo_after = [abstract(c) for c in project.history.redo_list]
         keep = undo_before[max(0, len(undo_before) - limit):]
@@ -361,9 +542,33 @@ def one_history(ctx, hseed):
         objdb_after = objdb_plain(project)
         from harness.c12 import strict_eq
         if not strict_eq(objdb_before, objdb_after):
+            broken = objdb_broken(objdb_after)
             ctx.violation(dict(replay, phase="objectdb", before=repr(objdb_before)[:1500], after=repr(objdb_after)[:1500]),
-                          "C12 object db: stored object information differs after close+reopen")
+                          "C12 object db: stored object information differs after close+reopen"
+                          + ("; reloaded scopes without their tables (path, key, error): %r" % broken[:3] if broken else ""))
             return result
+        observed_after = objdb_observe(project)
+        if observed_after != observed_before:
+            ctx.violation(dict(replay, phase="objectdb-queries", before=repr(observed_before)[:1500], after=repr(observed_after)[:1500]),
+                          "C12 object db: the reloaded object information answers queries differently")
+            return result
+        # reloaded scopes keep accepting facts: the same additions on the reloaded db and on a copy of what
+        # was stored before the close give the same tables
+        for (path, scopes) in sorted(objdb_before.items()):
+            for key in sorted(scopes):
+                name, value = "fresh_name", rng.choice(DB_TEXTUALS)   # no earlier value: the addition is accepted
+                exp = dict(scopes[key][1])
+                exp[name] = value
+                try:
+                    apply_db_op(project, ("db_add_pername", path, key, name, value))
+                    got = objdb_plain(project)[path][key]
+                except Exception as e:  # noqa
+                    got = ("ERROR", type(e).__name__)
+                if got != (scopes[key][0], exp):
+                    ctx.violation(dict(replay, phase="objectdb-add-after-reopen", path=path, key=key, name=name, value=value,
+                                       expected=repr((scopes[key][0], exp))[:600], got=repr(got)[:600]),
+                                  "C12 object db: adding a fact to a reloaded scope %r of %r gives %r" % (key, path, got))
+                    return result
         for path, scopes in objdb_before.items():
             for key, val in scopes.items():
                 result["objdb_values"].append(val)
@@ -383,7 +588,10 @@ def one_history(ctx, hseed):
                 ctx.violation(dict(replay, phase="redo-after-reopen", step=pos),
                               "C12 history: redo after reopen does not re-create the later tree (step %d)" % pos)
                 return result
-        project.close()
+        try:
+            project.close()
+        except Exception as e:  # noqa
+            ctx.violation(dict(replay, phase="final-close", error=repr(e)), "C12: the final close of the reopened project raises %r" % (e,))
     finally:
         shutil.rmtree(root, ignore_errors=True)
     return result
@@ -392,11 +600,29 @@ def one_history(ctx, hseed):
 # ----------------------------------------------------------------------------- (c) twin projects
 
 
+def has_cr(real_path):
+    try:
+        with open(real_path, "rb") as f:
+            return b"\r" in f.read()
+    except OSError:
+        return False
+
+
 def _abs_lists(project):
     return ([abstract(c) for c in project.history.undo_list], [abstract(c) for c in project.history.redo_list])
 
 
-def twin_history(ctx, hseed):
+def strip_times(a):
+    """The abstracted change without the time stamps of its change sets (ChangeSet.do stamps time.time(),
+    so two projects performing the same set differ there and only there)."""
+    if isinstance(a, list):
+        return [strip_times(x) for x in a]
+    if a[0] == "set":
+        return ("set", a[1], [strip_times(x) for x in a[2]], None)
+    return a
+
+
+def twin_history(ctx, hseed, out=None):
     """Project A is closed and reopened between sessions (and synced in mid-session); project B receives the
     same operations and is never closed. After every reopen A must have B's lists, dependency closures,
     object information; every later undo/redo/selective undo must produce the same tree in both."""
@@ -425,23 +651,36 @@ def twin_history(ctx, hseed):
         counter[0] += 1
         return "%s%d%s" % (prefix, counter[0], suffix)
 
-    def both(fn):
-        ea = eb = None
+    out = out if out is not None else {}
+    out.setdefault("ocases", [])
+    out.setdefault("dcases", [])
+
+    def both(fn, build=None):
+        """fn(P) on both projects (or P.do(build(P)) when a change builder is given: the History.do step of
+        the control is then kept as a case for PersistRunner.run_dcase). Returns errors and results."""
+        ea = eb = va = vb = None
         try:
-            fn(A)
+            va = A.do(build(A)) if build else fn(A)
         except Exception as e:  # noqa
             ea = type(e).__name__
         try:
-            fn(B)
+            if build:
+                before = _abs_lists(B)
+                c = build(B)
+                B.do(c)
+                out["dcases"].append(do_step_case(B, limit, before, c))
+            else:
+                vb = fn(B)
         except Exception as e:  # noqa
             eb = type(e).__name__
-        return ea, eb
+        return ea, eb, va, vb
 
     def compare(phase):
         if snapshot(ra) != snapshot(rb):
             ctx.violation(dict(rp, phase=phase, what="tree"), "C12 twin: project that was closed/reopened has a different tree from the never-closed control (%s)" % phase)
             return False
         la, lb = _abs_lists(A), _abs_lists(B)
+        la, lb = ([strip_times(x) for x in la[0]], [strip_times(x) for x in la[1]]), ([strip_times(x) for x in lb[0]], [strip_times(x) for x in lb[1]])
         if la != lb:
             ctx.violation(dict(rp, phase=phase, what="lists", reopened=la, control=lb),
                           "C12 twin: undo/redo lists of the reopened project differ from the never-closed control (%s)" % phase)
@@ -452,19 +691,107 @@ def twin_history(ctx, hseed):
             ctx.violation(dict(rp, phase=phase, what="dependencies", reopened=da, control=db),
                           "C12 twin: dependency closures differ from the never-closed control (%s)" % phase)
             return False
+        oa, ob = objdb_observe(A), objdb_observe(B)
+        if oa != ob:
+            bad = [(p, k, v) for p, sc in oa.items() for k, v in sc.items() if ob.get(p, {}).get(k) != v][:3]
+            ctx.violation(dict(rp, phase=phase, what="objectdb-queries", reopened=repr(oa)[:1500], control=repr(ob)[:1500]),
+                          "C12 twin: stored object information of the reopened project answers differently from the "
+                          "never-closed control (%s): %r" % (phase, bad))
+            return False
         return True
 
     try:
         nsessions = rng.randint(2, 3)
+        stale = [0]     # number of entries at the bottom of the redo list that a drop has orphaned
         for sess in range(nsessions):
             nops = rng.randint(2, 7)
+            # a session that only navigates the history it found (undo / redo / selective undo / dropping /
+            # queries, no new change): what it leaves behind must be what the next session finds
+            navigate = bool(A.history.undo_list or A.history.redo_list) and rng.random() < 0.3
+            if navigate:
+                nops = rng.randint(1, 4)
+                ctx.count("twin:navigation_only_session")
             for _ in range(nops):
                 files = sorted(r.path for r in A.get_files() if not r.path.startswith(".ropeproject"))
                 folders = [""] + sorted(f.path for f in _all_folders(A))
                 k = rng.random()
-                op = None
-                if k < 0.22 and files:
-                    path = rng.choice(files)
+                j = rng.random()
+                op = build = None
+
+                def pick_file():
+                    """half of the time one of the files with CR / CRLF line ends, wherever they are by now"""
+                    cr = [f for f in files if has_cr(os.path.join(ra, *f.split("/")))]
+                    return rng.choice(cr) if cr and rng.random() < 0.5 else rng.choice(files)
+                if navigate:
+                    nav = rng.choice(["undo", "undo", "undo", "redo", "redo", "undo_drop", "selective_undo", "sync", "query",
+                                      "drop_all", "clear"])
+                    if nav == "selective_undo" and len(A.history.undo_list) > 1:
+                        i = rng.randrange(len(A.history.undo_list))
+                        op = ("selective_undo", i)
+                        fn = lambda P: P.history.undo(P.history.undo_list[i])
+                    elif nav == "query" and any(objdb_plain(A).values()):
+                        db = objdb_plain(A)
+                        path = rng.choice(sorted(p for p in db if db[p]))
+                        op = ("db_query", path, rng.choice(sorted(db[path])), rng.choice(DB_NAMES), rng.choice(DB_ARGS))
+                        fn = lambda P: apply_db_op(P, op)
+                    elif nav == "undo_drop":
+                        op = ("undo_drop",)
+                        fn = lambda P: P.history.undo(drop=True)
+                    elif nav == "drop_all":      # what contrib.changestack.ChangeStack.pop_all does
+                        op = ("drop_all",)
+
+                        def fn(P):
+                            while P.history.undo_list:
+                                P.history.undo(drop=True)
+                    elif nav == "clear":
+                        op = ("clear",)
+                        fn = lambda P: P.history.clear()
+                    elif nav == "sync":
+                        op = ("sync",)
+                        fn = lambda P: P.sync()
+                    elif nav == "redo":
+                        op = ("redo",)
+                        fn = lambda P: P.history.redo()
+                    else:
+                        op = ("undo",)
+                        fn = lambda P: P.history.undo()
+                elif j < 0.14:
+                    # recorded change set with a child on an ignored resource (backup, .pyc, below .venv)
+                    op, build = mixed_change(rng, A, files, folders, fresh)
+                    fn = None
+                elif j < 0.20:
+                    # a change to ignored resources only: performed, not recorded
+                    ign = ignored_files_on_disk(A)
+                    if ign and rng.random() < 0.6:
+                        path, add = rng.choice(ign), rng.choice(["# touched\n", "x = 1\n"])
+                        op = ("ignored_only_edit", path, add)
+                        build = lambda P: ch.ChangeContents(P.get_file(path), P.get_file(path).read() + add)
+                    else:
+                        parent, name = rng.choice(folders), fresh("o", rng.choice([".pyc", ".py~"]))
+                        op = ("ignored_only_create", parent, name)
+                        build = lambda P: ch.CreateFile(P.get_folder(parent), name)
+                    fn = None
+                elif j < (0.34 if sess == 0 else 0.42):
+                    op = gen_db_op(rng, objdb_plain(A), [f for f in files if f.endswith(".py")])
+                    fn = lambda P: apply_db_op(P, op)
+                elif j < (0.40 if sess == 0 else 0.48) and files:
+                    # an edit followed by a move of the edited file (or of its folder): the reloaded edit names a
+                    # path that does not exist at load time and exists again when it is undone
+                    path = pick_file()
+                    add = rng.choice(["x = 1\n", "# é\n", "y = x\n"])
+                    parent = path.rsplit("/", 1)[0] if "/" in path else ""
+                    if parent and rng.random() < 0.4:
+                        top = parent.split("/")[0]
+                        src, newp, folder = top, fresh("r"), True
+                    else:
+                        src, newp, folder = path, _join(rng.choice(folders), fresh("m", ".py")), False
+                    op = ("edit_then_move", path, add, src, newp)
+
+                    def fn(P):
+                        P.do(ch.ChangeContents(P.get_file(path), P.get_file(path).read() + add))
+                        P.do(ch.MoveResource(P.get_folder(src) if folder else P.get_file(src), newp, exact=True))
+                elif k < 0.22 and files:
+                    path = pick_file()
                     add = rng.choice(["x = 1\n", "# é\n", "y = x\n"])
                     op = ("edit", path, add)
                     fn = lambda P: P.do(ch.ChangeContents(P.get_file(path), P.get_file(path).read() + add))
@@ -477,7 +804,7 @@ def twin_history(ctx, hseed):
                     op = ("create_folder", parent, name)
                     fn = lambda P: P.do(ch.CreateFolder(P.get_folder(parent), name))
                 elif k < 0.50:
-                    path, dest = rng.choice(files), rng.choice(folders)
+                    path, dest = pick_file(), rng.choice(folders)
                     newp = (dest + "/" if dest else "") + fresh("m", ".py")
                     op = ("move_file", path, newp)
                     fn = lambda P: P.do(ch.MoveResource(P.get_file(path), newp, exact=True))
@@ -535,29 +862,75 @@ def twin_history(ctx, hseed):
                 else:
                     op = ("sync",)
                     fn = lambda P: P.sync()
+                if op[0] == "redo" and len(A.history.redo_list) <= stale[0]:
+                    # the remaining redo entries were undone BEFORE a later undo(drop=True) removed a change below
+                    # them: redoing them is not a return to any earlier tree (rope keeps them listed, the
+                    # property does not speak about them); navigate the other way instead
+                    op = ("undo",)
+                    fn = lambda P: P.history.undo()
+                    ctx.count("twin:redo_of_entries_orphaned_by_a_drop_not_generated")
+                if op[0] in ("undo_drop", "drop_all") and A.history.undo_list:
+                    stale[0] = max(stale[0], len(A.history.redo_list))
                 rp["ops"].append(op)
                 ctx.count("twin_op:" + op[0])
-                ea, eb = both(fn)
+                if sess > 0 and op[0].startswith("db_") and len(op) > 2 and objdb_plain(A).get(op[1], {}).get(op[2]) == ({}, {}):
+                    ctx.count("twin:op_on_scope_that_is_empty_after_reopen")
+                ea, eb, va, vb = both(fn, build)
+                stale[0] = min(stale[0], len(A.history.redo_list))
                 if ea != eb:
                     ctx.violation(dict(rp, phase="op", errors=[ea, eb]),
                                   "C12 twin: operation %r raises %r in the reopened project but %r in the control" % (op, ea, eb))
+                    return
+                if op[0].startswith("db_") and va != vb:
+                    ctx.violation(dict(rp, phase="op", results=[repr(va)[:600], repr(vb)[:600]]),
+                                  "C12 twin: operation %r answers %r in the reopened project but %r in the control" % (op, va, vb))
                     return
                 if not compare("after %r in session %d" % (op, sess)):
                     return
             # session boundary: only A is closed and reopened
             odb_b = objdb_plain(B)
-            for _ in range(rng.randint(1, 2)):
-                A.close()
-                A = Project(ra, **kw)
+            if any(v == ({}, {}) for sc in odb_b.values() for v in sc.values()):
+                ctx.count("twin:closed_with_empty_scope")
+            if any(is_mixed(B, x) for x in _abs_lists(B)[0] + _abs_lists(B)[1]):
+                ctx.count("twin:closed_with_recorded_set_with_ignored_child")
+            own = _abs_lists(A)
+            own = (own[0][max(0, len(own[0]) - limit):], own[1])
+            for ci in range(rng.randint(1, 2)):
+                live = objdb_plain(A)
+                try:
+                    A.close()
+                except Exception as e:  # noqa
+                    ctx.violation(dict(rp, phase="close %d.%d" % (sess, ci), error=repr(e)),
+                                  "C12 twin: closing the project raises %r (session %d, close %d)" % (e, sess, ci + 1))
+                    return
+                if ci == 0 and live and not objdb_broken(live):
+                    try:
+                        out["ocases"].append((live, read_saved_objectdb(ra)))
+                    except Exception as e:  # noqa
+                        ctx.violation(dict(rp, phase="objectdb-json", error=repr(e)),
+                                      "C12 object db: the JSON side file written at close cannot be read back")
+                        return
+                try:
+                    A = Project(ra, **kw)
+                except Exception as e:  # noqa
+                    ctx.violation(dict(rp, phase="reopen %d.%d" % (sess, ci), error=repr(e)),
+                                  "C12 twin: opening the project again raises %r (session %d)" % (e, sess))
+                    return
             rp["ops"].append(("close_reopen",))
+            if _abs_lists(A) != own:
+                ctx.violation(dict(rp, phase="after reopen %d" % sess, what="own-lists", before=own, after=_abs_lists(A)),
+                              "C12 twin: undo/redo lists (time stamps included) differ from the project's own lists before the close")
+                return
             # B's undo list is trimmed only when it is written; mirror History.write's trimming
             B.history._remove_extra_items()
             if not compare("after reopen %d" % sess):
                 return
             odb_a = objdb_plain(A)
             if not strict_eq(odb_a, odb_b) and odb_a != odb_b:
+                broken = objdb_broken(odb_a)
                 ctx.violation(dict(rp, phase="objectdb", reopened=repr(odb_a)[:1500], control=repr(odb_b)[:1500]),
-                              "C12 twin: object information after reopen differs from what the never-closed control holds")
+                              "C12 twin: object information after reopen differs from what the never-closed control holds"
+                              + ("; reloaded scopes without their tables (path, key, error): %r" % broken[:3] if broken else ""))
                 return
         # wind the whole history back and forth in both
         steps = 0
@@ -566,7 +939,7 @@ def twin_history(ctx, hseed):
             steps += 1
             if not compare("final undo %d" % steps):
                 return
-        while A.history.redo_list and steps < 120:
+        while len(A.history.redo_list) > stale[0] and steps < 120:
             both(lambda P: P.history.redo())
             steps += 1
             if not compare("final redo %d" % steps):
@@ -600,13 +973,19 @@ def run_objdb_cases(ctx, ocases):
         g_db = g_list([g_pair(g_text(path), g_list([g_pair(g_text(k), g_pair(g_pyval(ci), g_pyval(pn)))
                                                     for k, (ci, pn) in scopes.items()]))
                        for path, scopes in db.items()])
-        g_saved = g_list([g_pair(g_text(path), g_list([
-            g_pair(g_text(k), "(%s, %s, %s)" % (g_jsval(st.get("data")), g_list([g_jsval(x) for x in st.get("references", [])]),
-                                                g_text(st.get("$", ""))))
-            for k, st in scopes.items()])) for path, scopes in saved.items()])
+        def g_state(st):
+            if not isinstance(st, dict):     # not a ScopeInfo state at all (e.g. null)
+                return "(%s, [], %s)" % (g_jsval(st), g_text(""))
+            return "(%s, %s, %s)" % (g_jsval(st.get("data")), g_list([g_jsval(x) for x in st.get("references", [])]),
+                                     g_text(st.get("$", "")))
+        g_saved = g_list([g_pair(g_text(path), g_list([g_pair(g_text(k), g_state(st)) for k, st in scopes.items()]))
+                          for path, scopes in saved.items()])
         terms.append("{| oc_digits := %s; oc_db := %s; oc_saved := %s |}" % (g_list([g_N(d) for d in digits]), g_db, g_saved))
     out = ctx.coq_file(PHEADER + "From RopeVerif.C12 Require Import Runner.\nDefinition cases : list ocase := %s.\n"
-                       "Eval vm_compute in (omismatches cases).\n" % g_list(terms).replace("; {|", ";\n {|"))
+                       "Eval vm_compute in (omismatches cases).\nEval vm_compute in (count_empty_scopes cases).\n"
+                       % g_list(terms).replace("; {|", ";\n {|"))
+    nums = ctx.parse_nums(out)
+    ctx.extra["empty_scopes_in_compared_object_dbs"] = nums[-1][0] if nums and nums[-1] else 0
     pairs = ctx.parse_pairs(out)
     for (i, code) in (pairs[0] if pairs else []):
         ctx.violation({"kind": "objectdb-model", "code": code, "db": repr(ocases[i][0])[:2000], "saved": repr(ocases[i][1])[:2000],
@@ -617,23 +996,171 @@ def run_objdb_cases(ctx, ocases):
         ctx.traces += 1
 
 
+def run_do_cases(ctx, dcases):
+    """Every History.do step observed on the live projects vs Persist.hist_do, inside Coq."""
+    if not dcases:
+        return
+    terms = ["{| dc_limit := %s; dc_ignored := %s; dc_undo := %s; dc_redo := %s; dc_change := %s; "
+             "dc_undo_after := %s; dc_redo_after := %s |}" % (
+                 g_nat(l), g_list([g_text(p) for p in ign]), g_list([g_change(x) for x in u]), g_list([g_change(x) for x in r]),
+                 g_change(c), g_list([g_change(x) for x in ua]), g_list([g_change(x) for x in ra]))
+             for (l, ign, u, r, c, ua, ra) in dcases]
+    shard = 150
+    bodies = [PHEADER + "Definition cases : list dcase := %s.\nEval vm_compute in (dmismatches cases).\n"
+              "Eval vm_compute in (count_mixed_do cases).\n" % g_list(terms[s:s + shard]).replace("; {|", ";\n {|")
+              for s in range(0, len(terms), shard)]
+    outs = ctx.coq_files_parallel(bodies)
+    mixed = 0
+    for si, out in enumerate(outs):
+        pairs = ctx.parse_pairs(out)
+        nums = ctx.parse_nums(out)
+        mixed += nums[-1][0] if nums and nums[-1] else 0
+        for (i, code) in (pairs[0] if pairs else []):
+            dc = dcases[si * shard + i]
+            ctx.violation({"kind": "do-model", "dcase": repr(dc)[:3000], "code": code,
+                           "broken": "correspondence PersistRunner.run_dcase (Persist.hist_do / interesting vs History.do); theorems C12_recorded_change_reloads_whole / C12_ignored_only_change_not_recorded no longer speak about the code"},
+                          "C12 history: model of History.do disagrees with the implementation on %r" % (dc[4],), no_input=True)
+    for dc in dcases:
+        ctx.traces += 1
+        ctx.case(("do-step", repr(dc)), nontrivial=bool(set(dc[1]) & set(abs_paths(dc[4]))))
+        ctx.count("do_step:" + ("not_recorded(ignored only)" if dc[5] == dc[2] else "recorded"))
+    ctx.extra["persist_do_steps"] = len(dcases)
+    ctx.extra["do_steps_recording_a_set_with_ignored_child"] = mixed
+
+
 def objdb_plain(project):
+    """{path: {scope key: (call_info, per_name)}} read from the live containers. A scope object whose
+    tables cannot be read (it lost its attributes) is reported as ("ERROR", exception name)."""
     db = project.pycore.object_info.objectdb.files
     res = {}
     for path, scopes in db._files.items():
         res[path] = {}
         for key, si in scopes.items():
-            res[path][key] = (dict(si.call_info), dict(si.per_name))
+            try:
+                res[path][key] = (dict(si.call_info), dict(si.per_name))
+            except Exception as e:  # noqa
+                res[path][key] = ("ERROR", type(e).__name__)
     return res
+
+
+def objdb_broken(plain):
+    return [(p, k, v[1]) for p, sc in plain.items() for k, v in sc.items() if v and v[0] == "ERROR"]
+
+
+def objdb_observe(project):
+    """What the stored object information answers through its query interface: for every stored scope
+    the call infos, and per-name / returned lookups for the names and argument tuples of the pools."""
+    odb = project.pycore.object_info.objectdb
+    res = {}
+    for path in sorted(odb.files.keys()):
+        res[path] = {}
+        info = odb.files[path]
+        for key in sorted(info.keys()):
+            try:
+                scope = info[key]
+                calls = sorted((repr(ci.get_parameters()), repr(ci.get_returned())) for ci in scope.get_call_infos())
+                names = [(n, scope.get_per_name(n)) for n in DB_NAMES]
+                rets = [(repr(a), scope.get_returned(a)) for a in DB_ARGS]
+                res[path][key] = (calls, names, rets)
+            except Exception as e:  # noqa
+                res[path][key] = "ERROR %s" % type(e).__name__
+    return res
+
+
+# object-db sessions through the public containers (MemoryDB / FileInfo / ScopeInfo) and ObjectDB
+DB_KEYS = ["f", "g", "C.m", "C", ""]
+DB_NAMES = ["x", "self", "pn"]
+DB_TEXTUALS = [("builtin", "str"), ("builtin", "list", ("builtin", "str")), ("unknown",), ("none",),
+               ("builtin", "dict", ("builtin", "str"), ("unknown",)), ("defined", "w.py", "C"),
+               ("instance", ("defined", "w.py", "C")), ("builtin", "tuple", ("builtin", "str"), ("none",))]
+DB_ARGS = [(), (("builtin", "str"),), (("unknown",), ("builtin", "str")), (("instance", ("defined", "w.py", "C")),)]
+
+
+def gen_db_op(rng, plain, pyfiles):
+    """One operation on the object db. plain: objdb_plain of the project; pyfiles: paths of its modules.
+    Existing scopes (the empty ones first) are preferred, so that reloaded scopes are queried and extended."""
+    paths = sorted(set(plain) | set(pyfiles) | {"ghost.py"})
+    existing = [(p, k) for p in sorted(plain) for k in sorted(plain[p])]
+    empty = [(p, k) for (p, k) in existing if plain[p][k] == ({}, {})]
+    k = rng.random()
+    if k < 0.25 or not existing:
+        absent = [(p, key) for p in paths for key in DB_KEYS if key not in plain.get(p, {})]
+        path, key = rng.choice(absent) if absent else (rng.choice(paths), rng.choice(DB_KEYS))
+        return ("db_create_scope", path, key)
+    if k < 0.31:
+        return ("db_create_file", rng.choice(paths))
+    if empty and rng.random() < 0.6:
+        path, key = rng.choice(empty)
+    elif rng.random() < 0.8:
+        path, key = rng.choice(existing)
+    else:
+        path, key = rng.choice(paths), rng.choice(DB_KEYS)
+    if k < 0.48:
+        return ("db_add_call", path, key, rng.choice(DB_ARGS), rng.choice(DB_TEXTUALS))
+    if k < 0.65:
+        return ("db_add_pername", path, key, rng.choice(DB_NAMES), rng.choice(DB_TEXTUALS))
+    if k < 0.92:
+        return ("db_query", path, key, rng.choice(DB_NAMES), rng.choice(DB_ARGS))
+    return ("db_del_scope", path, key)
+
+
+def apply_db_op(P, op):
+    odb = P.pycore.object_info.objectdb
+    kind = op[0]
+    if kind == "db_create_scope":       # a scope that exists with nothing recorded (yet)
+        _, path, key = op
+        if path not in odb.files:
+            odb.files.create(path)
+        if key not in odb.files[path]:
+            odb.files[path].create_scope(key)
+        return None
+    if kind == "db_create_file":
+        if op[1] not in odb.files:
+            odb.files.create(op[1])
+        return None
+    if kind == "db_add_call":
+        _, path, key, args, returned = op
+        odb.add_callinfo(path, key, args, returned)
+        return None
+    if kind == "db_add_pername":
+        _, path, key, name, value = op
+        odb.add_pername(path, key, name, value)
+        return None
+    if kind == "db_query":
+        _, path, key, name, args = op
+        return (odb.get_pername(path, key, name), odb.get_returned(path, key, args),
+                sorted((repr(ci.get_parameters()), repr(ci.get_returned())) for ci in odb.get_callinfos(path, key)))
+    if kind == "db_del_scope":
+        _, path, key = op
+        if path in odb.files and key in odb.files[path]:
+            del odb.files[path][key]
+        return None
+    raise ValueError(kind)
+
+
+def read_saved_objectdb(root):
+    import json as _json
+    with open(os.path.join(root, ".ropeproject", "objectdb.json")) as jf:
+        return _json.load(jf)
 
 
 def run(ctx):
     from rope.base.project import Project
     ctx.extra["persist_rule"] = (
-        "unit: random change trees (depth<=3, all five change classes, File/Folder resources, None/float times) through "
-        "ChangeToData -> pickle protocol 2 -> DataToChange; project: 3-9 changes (edits, file/folder creations, file and "
-        "folder moves, composite sets) + 0-3 undos on a temp project with limits {2,3,100}, close and reopen 1-2 times, "
-        "lists, dependency closures and object db compared, every undo/redo replayed against snapshots")
+        "unit: random change trees (depth<=3, all five change classes, File/Folder resources, None/float times; half of "
+        "the leaves draw their resource from a pool that contains ignored resources: '*~' backups, '*.pyc', below .venv, "
+        "'venv'; 30% of the sets start with a save-with-backup pair) through ChangeToData -> pickle protocol 2 -> "
+        "DataToChange, with project.is_ignored of every changed path and History._is_change_interesting; "
+        "project: 3-9 changes (edits, file/folder creations, file and folder moves, composite sets, 30% recorded sets with "
+        "children on ignored resources: backup sets (also nested), moves of a file with its backup, .pyc and .venv "
+        "creations) + 0-3 undos on a temp project with limits {2,3,100}, static analysis of one module plus 0-4 direct "
+        "object-db operations (scopes created with nothing recorded, call/per-name facts, removals, bare file entries), "
+        "close and reopen 1-2 times; lists, dependency closures, object db (tables and query answers) compared, one fact "
+        "added to every reloaded scope, every undo/redo replayed against snapshots (ignored files included); every "
+        "History.do step is a Coq case (hist_do). twin: the same operations on a project that is closed/reopened between "
+        "sessions and on a never-closed control, incl. recorded sets with ignored children, changes to ignored resources "
+        "only (not recorded), object-db operations that prefer scopes that are empty, queries; lists modulo ChangeSet time "
+        "stamps vs the control and with time stamps vs the project's own lists before the close")
     root = tempfile.mkdtemp(prefix="ropeverif-c12u-")
     try:
         project = Project(root, ropefolder=None)
@@ -642,11 +1169,12 @@ def run(ctx):
     finally:
         shutil.rmtree(root, ignore_errors=True)
     nh = ctx.scale(40, 400)
-    hcases, objvals, ocases = [], [], []
+    hcases, objvals, ocases, dcases = [], [], [], []
     for h in range(nh):
         r = one_history(ctx, h)
         if r.get("objdb_case") and r["objdb_case"][0]:
             ocases.append(r["objdb_case"])
+        dcases.extend(r.get("dcases", []))
         ctx.case(("history", h), nontrivial=r["hcase"] is not None and len(r["hcase"][1]) + len(r["hcase"][2]) >= 2)
         ctx.traces += 1
         if r["hcase"]:
@@ -667,16 +1195,23 @@ def run(ctx):
                            "broken": "correspondence PersistRunner.run_hcase (Persist.close/reopen vs History.write/_load_history); theorem C12_reopen_lists no longer speaks about the code"},
                           "C12 history: model close/reopen disagrees with the implementation", no_input=True)
     ctx.extra["persist_histories"] = len(hcases)
-    run_objdb_cases(ctx, ocases)
     nt = ctx.scale(40, 400)
+    tout = {"ocases": [], "dcases": []}
     for h in range(nt):
-        before = len(ctx.violations)
-        twin_history(ctx, h)
+        twin_history(ctx, h, tout)
         ctx.case(("twin", h), nontrivial=True)
         ctx.traces += 1
         if ctx.too_many():
             return
     ctx.extra["persist_twin_histories"] = nt
+    # at most ~300 object-db cases per file; the twin sessions contribute the dbs with directly created scopes
+    seen_o, uniq_o = set(), []
+    for oc in ocases + tout["ocases"]:
+        if repr(oc) not in seen_o:
+            seen_o.add(repr(oc))
+            uniq_o.append(oc)
+    run_objdb_cases(ctx, uniq_o[:300])
+    run_do_cases(ctx, dcases + tout["dcases"])
     # every stored ScopeInfo state goes through the serializer correspondence (version 2, as __getstate__ does)
     if objvals:
         from harness import c12
@@ -726,6 +1261,61 @@ def replay(ctx, obj):
             bad = len(p.history.undo_list) != 3 or snapshot(root) != before
             p.close()
             return bad
+        finally:
+            shutil.rmtree(root, ignore_errors=True)
+    if obj.get("kind") == "history-script" and obj.get("script") == "backup-set-undo-after-reopen":
+        # a recorded set that also writes an ignored backup file: same set after reopen, undo/redo restore both files
+        root = tempfile.mkdtemp(prefix="ropeverif-c12r-")
+        try:
+            p = Project(root, save_history=True, save_objectdb=True)
+            p.root.create_file("app.py").write("v = 1\n")
+            with open(os.path.join(root, "app.py~"), "w") as f:
+                f.write("# older backup\n")
+            before = snapshot(root)
+            cs = ch.ChangeSet("save with backup")
+            cs.add_change(ch.ChangeContents(p.get_file("app.py~"), "v = 1\n"))
+            cs.add_change(ch.ChangeContents(p.get_file("app.py"), "v = 2\n"))
+            p.do(cs)
+            after = snapshot(root)
+            lists = _abs_lists(p)
+            for _ in range(2):
+                p.close()
+                p = Project(root, save_history=True, save_objectdb=True)
+            bad = _abs_lists(p) != lists
+            p.history.undo()
+            bad = bad or snapshot(root) != before
+            p.history.redo()
+            bad = bad or snapshot(root) != after
+            p.close()
+            return bad
+        except Exception:  # noqa
+            return True
+        finally:
+            shutil.rmtree(root, ignore_errors=True)
+    if obj.get("kind") == "objdb-script":
+        # object-db operations, close/reopen twice: same tables, same answers, every scope still accepts a fact
+        root = tempfile.mkdtemp(prefix="ropeverif-c12r-")
+        try:
+            p = Project(root, save_history=True, save_objectdb=True)
+            p.root.create_file("mod.py").write("def f(a):\n    return a\n\ndef g():\n    pass\n")
+            for op in obj["ops"]:
+                apply_db_op(p, _tuplify(op))
+            plain, observed = objdb_plain(p), objdb_observe(p)
+            for _ in range(2):
+                p.close()
+                p = Project(root, save_history=True, save_objectdb=True)
+                if objdb_plain(p) != plain or objdb_observe(p) != observed:
+                    return True
+            for path in sorted(plain):
+                for key in sorted(plain[path]):
+                    apply_db_op(p, ("db_add_pername", path, key, "fresh_name", ("builtin", "str")))
+                    exp = dict(plain[path][key][1], fresh_name=("builtin", "str"))
+                    if objdb_plain(p)[path][key] != (plain[path][key][0], exp):
+                        return True
+            p.close()
+            return False
+        except Exception:  # noqa
+            return True
         finally:
             shutil.rmtree(root, ignore_errors=True)
     if obj.get("kind") == "twin":
